@@ -35,7 +35,8 @@ def check(tier):
     fams.append(("multirec", gen2.family_multirec("quick")[:: (2 if tier == "quick" else 1)]))
     fams.append(("strat", gen2.family_strat("quick", subset=("neg", "rec", "recneg"))[:: (3 if tier == "quick" else 1)]))
     fams.append(("agg", gen2.family_agg("quick")[:: (2 if tier == "quick" else 1)]))
-    fams.append(("rec", gen2.family_rec("quick")))
+    # (the list-building cases of family `rec` are exponential in the size of a/1: not on the large databases)
+    fams.append(("rec", [c for c in gen2.family_rec("quick") if "lists" not in c.desc]))
     fams.append(("shape", gen2.family_shape("quick")))
     for name, cases in fams:
         if dl.expired():
